@@ -31,7 +31,7 @@ from .. import wg
 LEVEL = "exploration"
 RULE = (
     "full cross product potential{cubic1,xsm2,xsm3} x v_w{3 deflagrations,2 hybrids,3 detonations} x M{20,40} x widths{0.5,1,2}^nf L0 x "
-    "offsets{-1,0,0.7}^nf (xsm3 thorough: first offset 0 plus the two uniform offsets; quick: 3 width x 3 offset combinations for nf>1) x "
+    "offsets{-1,0,0.7}^nf (xsm3 thorough: first offset 0 plus the two uniform offsets; quick: 3-4 width x 3 offset combinations for nf>1, M=40 only for unit widths) x "
     "moments{zero,D00,D02,D20,D11,all}; every grid point of every successful profile is one oracle point (4 relations) plus 4 far-field relations "
     "per profile. A case is non-trivial if at least one profile kept successTemperatureProfile and the branch measured from the analytic sound speed "
     "(deflagration/hybrid/detonation) is the one the lattice point targets; distinct = distinct case id."
@@ -49,7 +49,7 @@ ASSUMPTIONS = [
     "analytic c_s(T+)) within the root finder's guarantee 2(rtol T + xtol); (limit) |T[0]-T-|, |T[-1]-T+| <= root guarantee + 1e-3 T and |v + v-/+| <= |dv/dT| tol_T "
     "+ 1e-3: the 1e-3 is the stated finite-grid meaning of 'tends to' (the oracle-predicted tail displacement is recorded and is <= 1e-4 T), not a numerical tolerance",
     "admissible = both phases exist as analytic minima at T+ / T- inside the traced range, and the analytic fluxes at (T+,v+) and (T-,v-) agree to 1e-4 "
-    "(matching converged; its accuracy is C02/C06's job); anything else is counted inadmissible",
+    "(matching converged; its accuracy is C02/C06's job); anything else, including findHydroBoundaries raising, is counted inadmissible",
     "profiles whose successTemperatureProfile is False are counted (tag profile-failed) and not judged; a point where the code returns the minimum of F although "
     "F>0 there (no root) while success stays True shows up as a T33-root violation (tag no-root-minimum-returned)",
 ]
@@ -61,7 +61,7 @@ A_RAD = 107.75 * np.pi**2 / 90
 # name -> (model factory, Tn, high phase, low phase, wall velocities by intended class)
 POTS = {
     "cubic1": dict(make=lambda: MD.Cubic1(0.2, 0.1, 0.1, 75.0, A_RAD), Tn=100.0, high="sym", low="brk",
-                   vw=dict(deflagration=[0.2, 0.4, 0.55], hybrid=[0.59, 0.63], detonation=[0.66, 0.8, 0.95])),
+                   vw=dict(deflagration=[0.2, 0.4, 0.55], hybrid=[0.59, 0.63], detonation=[0.7, 0.8, 0.95])),
     "xsm2": dict(make=MD.xsm2, Tn=100.0, high="S1", low="S0",
                  vw=dict(deflagration=[0.2, 0.4, 0.55], hybrid=[0.59, 0.62], detonation=[0.64, 0.8, 0.95])),
     "xsm3": dict(make=MD.xsm3, Tn=100.0, high="S12", low="S0",
@@ -86,7 +86,7 @@ def shapes(pot: str, tier: str) -> list[tuple[list, list]]:
         return [([w], [o]) for w in WIDTHS for o in OFFSETS]
     if tier == "quick":
         if nf == 2:
-            ws = [[1.0, 1.0], [0.5, 2.0], [2.0, 0.5]]
+            ws = [[1.0, 1.0], [0.5, 2.0], [2.0, 0.5], [0.5, 0.5]]  # the last one x offsets -1|0.7 has a no-root point without any Deltas
             os_ = [[0.0, 0.0], [-1.0, 0.7], [0.7, -1.0]]
         else:
             ws = [[1.0, 1.0, 1.0], [0.5, 1.0, 2.0], [2.0, 0.5, 1.0]]
@@ -120,6 +120,8 @@ def profile_cases(tier: str) -> list[dict]:
             for cls, vws in spec["vw"].items():
                 for vw in vws:
                     for w, o in shapes(pot, tier):
+                        if tier == "quick" and M != MS[0] and any(x != 1.0 for x in w):
+                            continue  # quick: the finer grid only for the unit-width shapes (3 offsets each)
                         out.append(dict(pot=pot, M=M, vw=vw, cls=cls, widths=w, offsets=o,
                                         id=f"{pot},M={M},vw={vw:g},w={_fl(w)},o={_fl(o)}"))
     return out
@@ -279,9 +281,9 @@ def case_boundaries(p: dict) -> dict:
     am, m, eom = _mgr(p["pot"], MS[0])
     try:
         bc = dict(_boundaries(p["pot"], p["vw"]), vw=p["vw"])
-    except Exception as e:  # the property needs boundary constants for every v_w above vMin
-        r.true("boundaries-returned", False, error=repr(e))
-        return r.result()
+    except Exception as e:  # no matching, no boundary constants: nothing for C04 to judge (existence of matchings is C02/C06)
+        r.detail["error"] = repr(e)[:300]
+        return r.result(inadmissible="findHydroBoundaries-raised")
     r.detail.update({k: bc[k] for k in ("c1", "c2", "Tp", "Tm", "vmid", "vp", "vm", "vJ")})
     bad = _admissible(am, spec, bc)
     if bad:
@@ -413,8 +415,8 @@ def case_profile(p: dict) -> dict:
     try:
         bc = dict(_boundaries(p["pot"], p["vw"]), vw=p["vw"])
     except Exception as e:
-        r.true("boundaries-returned", False, error=repr(e))
-        return r.result()
+        r.detail["error"] = repr(e)[:300]
+        return r.result(inadmissible="findHydroBoundaries-raised")
     bad = _admissible(am, spec, bc)
     if bad:
         return r.result(inadmissible=bad)
